@@ -199,12 +199,15 @@ def monitor(case, r, interrupted=False):
     if interrupted:
         if not isinstance(exc, KeyboardInterrupt):
             v.append(("C17", f"KeyboardInterrupt did not propagate (got {exc!r})"))
-        # no begin after the setStop label
-        labs = [l for l, _ in tr.labels]
-        if "setStop" in labs:
-            i = labs.index("setStop")
-            # a begin is a `check w` whose worker then has a finOk/finFail; use raw events order instead:
-            pass
+        # after the coordinator's `stop = True` (label setStop, placed right after that assignment) no call may start.
+        # (primitive-level scheduling only: there the read of `stop` and the call of fn are one atomic stretch)
+        if r.sched.mode == "prim":
+            tl = tr.timeline
+            cut = next((i for i, t in enumerate(tl) if t in ("L:setStop", "L:putDone")), None)
+            if cut is not None:
+                late = [t for t in tl[cut + 1:] if t.startswith("begin ")]
+                if late:
+                    v.append(("C17", f"calls started after the interrupt had been handled (stop set, sentinels queued): {late[:4]}"))
         return v
     if failed:
         if not isinstance(exc, eng.NodeError):
